@@ -26,6 +26,7 @@ type vbFeed struct {
 	Cm   int       `json:"c"`    // committer (FeedCommit)
 	E    bool      `json:"e"`    // for empty block
 	Ok   bool      `json:"ok"`   // FeedEndorse: endorser signature valid
+	Cc   bool      `json:"cc"`   // FeedEndorse: the message also carries the endorser's (valid) cross-chain-msg signature
 	Cok  bool      `json:"cok"`  // FeedCommit: committer signature valid
 	Pok  bool      `json:"pok"`  // FeedCommit: carried proposer signature valid
 	Es   []vbClaim `json:"es"`   // FeedCommit: claimed endorser signatures
@@ -76,6 +77,7 @@ type vbPoolObs struct {
 }
 
 var vbGarbage = common.Uint256{0xde, 0xad}
+var vbCCHash = common.Uint256{0xcc, 0x01}
 
 func (net *vbNet) mkEndorse(f *vbFeed, byz int) (*blockEndorseMsg, uint32) {
 	h := net.blockHash(f.P, f.V, f.E)
@@ -87,6 +89,10 @@ func (net *vbNet) mkEndorse(f *vbFeed, byz int) (*blockEndorseMsg, uint32) {
 		m.ProposerSig = prop.BlockProposerSig
 	}
 	sender := uint32(f.I)
+	if f.Cc && f.Ok {
+		m.CrossChainMsgHash = vbCCHash
+		m.CrossChainMsgEndorserSig = net.sign(f.I, vbCCHash)
+	}
 	if f.Ok {
 		m.EndorserSig = net.sign(f.I, h)
 	} else {
